@@ -67,6 +67,8 @@ def plan(tier, seed):
     specs = [{"kind": "systematic", "base": b} for b in range(4)]
     for _ in range(8 if q else 24):
         specs.append({"kind": "random", "count": 5000 if q else 60000, "double": not q})
+    for T in ([4] if q else [2, 4, 8, 16]):
+        specs.append({"kind": "threads", "threads": T, "count": 600 if q else 6000})
     return specs
 
 
@@ -94,6 +96,13 @@ def judge(doc_case, rec, lib, label, push=True):
     elif exp == schema.R and out.accepted:
         rec.violation("schema/checkformat_delegating_metadata/accepts-invalid/" + label.split(":")[0],
                       "document outside the documented schema accepted (%s)" % label, case)
+    if exp == schema.R and not out.accepted and rec.evaluations % 5 == 0:
+        # the same document offered again right after its rejection
+        o2 = boundary.call(lib, C.checkformat_delegating_metadata, caselang.dec(doc_case, lib))
+        rec.count("repeats_after_reject")
+        if o2.accepted:
+            rec.violation("schema/checkformat_delegating_metadata/accepts-invalid/on-repeat",
+                          "document outside the documented schema rejected the first time, accepted when offered again (%s)" % label, case)
     if out.accepted and push:
         push_through(doc_case, doc, rec, lib, case)
     return exp, out
@@ -183,8 +192,57 @@ def run_random(spec, rec, lib):
             rec.sample({"base": name, "mutation": mut})
 
 
+def run_threads(spec, rec, lib):
+    """the checker's verdict on a document does not depend on what other threads are checking or verifying at the same time
+    (valid and invalid documents, and verify_delegation calls on non-delegating payloads, interleaved)"""
+    from ..engines import threads
+    from ..gen import metadata as gmd
+
+    rng = random.Random(spec["seed"])
+    bs = bases(rng, lib, 4)
+    pss = [mutate.paths(b) for _n, b in bs]
+    C, A, S = lib.common, lib.authentication, lib.signing
+    jobs, meta = [], []
+    km = gmd.envelope(gmd.delegating("key_mgr", {"pkg_mgr": gmd.delegation([gkeys.key(0)], 1)}))
+    while len(jobs) < spec["count"]:
+        j = rng.randrange(len(bs))
+        name, base = bs[j]
+        r = rng.random()
+        try:
+            if r < 0.25:
+                doc_case, label = base, name + ":valid"
+            else:
+                mut = mutate.random_mutation(base, rng, palette.ALL, pss[j])
+                doc_case, label = mutate.apply(base, mut), "%s:%s" % (name, mut[0])
+        except (KeyError, IndexError, TypeError):
+            continue
+        doc = caselang.dec(doc_case, lib)
+        jobs.append((C.checkformat_delegating_metadata, (doc,), {}))
+        meta.append((doc_case, label, schema.delegating_metadata(doc)))
+        if rng.random() < 0.3:
+            env = {"signatures": {}, "signed": rng.choice([{"name": "pkg"}, 5, None, ["x"], {"type": "root"}])}
+            jobs.append((A.verify_delegation, ("pkg_mgr", env, copy.deepcopy(km)), {}))
+            meta.append(None)
+    res = threads.run_calls(lib, jobs, spec["threads"], rec, spec["seed"], prob=0.1, label="checkformat_delegating_metadata")
+    if res is None:
+        return
+    for m, out in zip(meta, res):
+        if m is None or out is None:
+            continue
+        doc_case, label, exp = m
+        rec.case("thr|%s|%s" % (label, exp))
+        rec.hist("oracle", exp)
+        case = {"kind": "doc", "doc": doc_case, "label": label + "[threads]"}
+        if exp == schema.A and not out.accepted:
+            rec.violation(boundary.mechanism("schema", "checkformat_delegating_metadata[threads]", "accept", out),
+                          "schema-valid document rejected while other threads were checking other documents", case)
+        elif exp == schema.R and out.accepted:
+            rec.violation("schema/checkformat_delegating_metadata/accepts-invalid/under-threads",
+                          "document outside the documented schema accepted while other threads were checking other documents (%s)" % label, case)
+
+
 def run_shard(spec, rec, lib):
-    {"systematic": run_systematic, "random": run_random}[spec["kind"]](spec, rec, lib)
+    {"systematic": run_systematic, "random": run_random, "threads": run_threads}[spec["kind"]](spec, rec, lib)
 
 
 def finish(merged, tier, seed):
